@@ -25,20 +25,16 @@ import (
 	"seata.apache.org/seata-go/pkg/datasource/sql/undo/executor"
 )
 
-var undoExecutorHolderMap map[types.DBType]undo.UndoExecutorHolder
+// built once at package initialisation: branch rollbacks read it concurrently
+var undoExecutorHolderMap = map[types.DBType]undo.UndoExecutorHolder{
+	// todo impl oracle, mariadb, postgresql etc ...
+	types.DBTypeMySQL: executor.NewMySQLUndoExecutorHolder(),
+}
 
 var ErrNotImplDBType = errors.New("db type executor not implement")
 
 // GetUndoExecutorHolder get exactly executor holder
 func GetUndoExecutorHolder(dbType types.DBType) (undo.UndoExecutorHolder, error) {
-	// lazy init
-	if undoExecutorHolderMap == nil {
-		undoExecutorHolderMap = map[types.DBType]undo.UndoExecutorHolder{
-			// todo impl oracle, mariadb, postgresql etc ...
-			types.DBTypeMySQL: executor.NewMySQLUndoExecutorHolder(),
-		}
-	}
-
 	if executorHolder, ok := undoExecutorHolderMap[dbType]; ok {
 		return executorHolder, nil
 	} else {
